@@ -19,13 +19,16 @@
       H03 gen_hash_shiftOffsets  ofHash (shiftOffsets g δ) = (ofHash g).shiftOffsets δ
 
   None of the functions panics on a state satisfying the invariant (the result is `Res.ok`).
-  `*_loop_eq` state what the translated `range` loops compute (`mapLoop`, GenHashPropsBase); they
-  are the only lemmas that follow the text of the generated definitions.
+  The zeroing loops / `clear` calls of `init` and `reset` arrive as `GSlice.clear` (lemmas
+  `gclear_*`, GenHashPropsBase); `shift_loop_eq` states what the translated `range` loop of
+  `shiftOffsets` computes (`mapLoop`, GenHashPropsBase) and is the only lemma that follows the text
+  of a generated definition.
 -/
 import LzModel.Generated.CodeHashTab
 import LzModel.Generated.CodeCfgHash
 import LzModel.Hash
 import LzProofs.GenHashPropsBase
+import LzProofs.GenPropsInts
 
 set_option linter.unusedSimpArgs false
 set_option linter.unusedVariables false
@@ -48,6 +51,9 @@ def HashWF (g : Gen.hash) : Prop :=
     g.table.len = 2 ^ (64 - g.shift.toNat)
 
 @[simp] theorem ofEntry_zero : ofEntry zeroE = (0, 0) := rfl
+
+/-- the same with the zero value written as the translator writes it -/
+theorem ofEntry_zero' : ofEntry { pos := 0, value := 0 } = (0, 0) := rfl
 
 theorem hashT_ext (a b : HashT) (h1 : a.tbl.toList = b.tbl.toList) (h2 : a.inputLen = b.inputLen)
     (h3 : a.hashBits = b.hashBits) : a = b := by
@@ -73,32 +79,6 @@ theorem ofEntry_shiftF (delta : UInt32) (e : hashEntry) : ofEntry (shiftF delta 
   · have h' : ¬ e.pos.toNat < delta.toNat := fun c => h (UInt32.lt_iff_toNat_lt.mpr c)
     have hle : delta ≤ e.pos := UInt32.le_iff_toNat_le.mpr (by omega)
     simp only [h, h', if_false, UInt32.toNat_sub_of_le _ _ hle]
-
-theorem reset_loop_eq (n : Nat) : ∀ (i : Nat) (k : Int) (g : Gen.hash), k = (i : Int) → i + n ≤ g.table.len →
-    hash_reset_loop_1 n k g =
-      Res.ok { g with table := { g.table with arr := mapLoop (fun _ => zeroE) zeroE n i g.table.arr } } := by
-  induction n with
-  | zero => intro i k g _ _; rfl
-  | succ n ih =>
-    intro i k g hk hlen
-    simp only [hash_reset_loop_1]
-    rw [gset_ok _ _ i hk (by omega)]
-    simp only [bind_ok]
-    rw [ih (i + 1) (k + 1) _ (by omega) (by show i + 1 + n ≤ g.table.len; omega)]
-    rfl
-
-theorem init_loop_eq (n : Nat) : ∀ (i : Nat) (k : Int) (g : Gen.hash), k = (i : Int) → i + n ≤ g.table.len →
-    hash_init_loop_1 n k g =
-      Res.ok { g with table := { g.table with arr := mapLoop (fun _ => zeroE) zeroE n i g.table.arr } } := by
-  induction n with
-  | zero => intro i k g _ _; rfl
-  | succ n ih =>
-    intro i k g hk hlen
-    simp only [hash_init_loop_1]
-    rw [gset_ok _ _ i hk (by omega)]
-    simp only [bind_ok]
-    rw [ih (i + 1) (k + 1) _ (by omega) (by show i + 1 + n ≤ g.table.len; omega)]
-    rfl
 
 theorem shift_loop_eq (delta : UInt32) (n : Nat) : ∀ (i : Nat) (k : Int) (g : Gen.hash), k = (i : Int) →
     i + n ≤ g.table.len →
@@ -137,16 +117,14 @@ theorem gen_hash_reset (g : Gen.hash) (h : HashWF g) :
     ∃ g', hash_reset g = Res.ok g' ∧ ofHash g' = (ofHash g).clear ∧ HashWF g' := by
   obtain ⟨hw, hil, hm, hs, hl⟩ := h
   unfold hash_reset
-  rw [reset_loop_eq g.table.len 0 0 g rfl (by omega)]
-  simp only [bind_ok]
+  (try simp only [gen_helper, bind_ok])
   refine ⟨_, rfl, ?_, ?_⟩
   · apply hashT_ext
-    · simp only [ofHash, HashT.clear, data_mapLoop hw, List.map_map, Array.toList_replicate, List.size_toArray,
-        List.length_map]
-      rw [show (ofEntry ∘ fun _ => zeroE) = fun _ => ((0 : Nat), (0 : Nat)) from rfl, map_const_replicate]
+    · simp only [ofHash, HashT.clear, gclear_data _ _ hw, List.map_replicate, ofEntry_zero', Array.toList_replicate,
+        List.size_toArray, List.length_map, gdata_length hw]
     · rfl
     · rfl
-  · exact ⟨by simpa [GWF, mapLoop_length] using hw, hil, hm, hs, hl⟩
+  · exact ⟨gclear_wf _ _ hw, hil, hm, hs, hl⟩
 
 /-! ## H03 shiftOffsets -/
 
@@ -203,7 +181,7 @@ theorem gen_hash_init_err (g : Gen.hash) (il hb : Int) (h : ¬ InitOK il hb) :
       hashConfig_Verify { InputLen := il, HashBits := hb } ≠ Gen.Err.ok := by
   unfold InitOK at h
   unfold hash_init hashConfig_Verify
-  dsimp only
+  simp only [gen_helper, LZ.GenProps.gen_min]
   -- every combination of outcomes of the range checks (however they are written) of the two
   -- functions: contradictory, or both report the same error
   (repeat' split) <;> first
@@ -216,7 +194,7 @@ theorem gen_hash_init (g : Gen.hash) (il hb : Int) (hw : GWF g.table) (h : InitO
     ∃ g', hash_init g il hb = Res.ok (g', Gen.Err.ok) ∧ ofHash g' = HashT.new il.toNat hb.toNat ∧ HashWF g' := by
   obtain ⟨h1, h2, h3, h4, h5⟩ := h
   unfold hash_init
-  dsimp only
+  simp only [gen_helper, LZ.GenProps.gen_min]
   -- the two range checks pass, however they are written
   rw [if_neg]
   case hnc => (repeat' split) <;> omega
@@ -227,46 +205,45 @@ theorem gen_hash_init (g : Gen.hash) (il hb : Int) (hw : GWF g.table) (h : InitO
   have hsh := shift_eq hb h3 h4
   have hmk := mask_eq il h1 h2
   have hbits : 64 - (64 - hb.toNat) = hb.toNat := by omega
-  by_cases hc : ((2 ^ hb.toNat : Nat) : Int) ≤ Int.ofNat g.table.cap
-  · have hc' : 2 ^ hb.toNat ≤ g.table.arr.length := by
-      have : ((2 ^ hb.toNat : Nat) : Int) ≤ (g.table.arr.length : Int) := hc
-      omega
-    simp only [hc, if_true]
-    rw [gslice_ok g.table 0 _ 0 (2 ^ hb.toNat) rfl rfl (Nat.zero_le _) hc']
-    simp only [bind_ok, List.drop_zero, Nat.sub_zero]
-    rw [init_loop_eq (2 ^ hb.toNat) 0 0 _ rfl (by simp)]
-    simp only [bind_ok]
-    refine ⟨_, rfl, ?_, ?_⟩
-    · apply hashT_ext
-      · simp only [ofHash, HashT.new, GSlice.data, mapLoop_take _ _ _ _ hc', List.map_map,
-          Array.toList_replicate]
-        rw [show (ofEntry ∘ fun _ => zeroE) = fun _ => ((0 : Nat), (0 : Nat)) from rfl, map_const_replicate,
-          List.length_take, Nat.min_eq_left hc']
-      · rfl
-      · simp only [ofHash, HashT.new, hsh, hbits]
-    · refine ⟨?_, (by show 0 ≤ il; omega), ?_, ?_, ?_⟩
-      · simpa [GWF, mapLoop_length] using hc'
-      · simpa using hmk
-      · simp only [hsh]; omega
-      · simp only [hsh, hbits]
-  · simp only [hc, if_false]
-    -- `make([]hashEntry, n)` or with any capacity ≥ n
-    have hpos : (0 : Int) ≤ ((2 ^ hb.toNat : Nat) : Int) := Int.natCast_nonneg _
-    rw [gmake_eq _ _ _ (by omega)]
-    simp only [bind_ok, Int.toNat_natCast]
-    refine ⟨_, rfl, ?_, ?_⟩
-    · apply hashT_ext
-      · simp only [ofHash, HashT.new, GSlice.data, List.take_replicate, List.map_replicate,
-          Array.toList_replicate]
-        congr 1
+  have hpos : (0 : Int) ≤ ((2 ^ hb.toNat : Nat) : Int) := Int.natCast_nonneg _
+  -- the test `n ≤ cap(table)` (or its negation with the arms swapped); in each arm: either the
+  -- `make` arm or the re-slice-and-clear arm
+  split
+  all_goals first
+    | -- `make([]hashEntry, n)` or with any capacity ≥ n
+      rw [gmake_eq _ _ _ (by omega)]
+      simp only [bind_ok, Int.toNat_natCast]
+      refine ⟨_, rfl, ?_, ?_⟩
+      · apply hashT_ext
+        · simp only [ofHash, HashT.new, GSlice.data, List.take_replicate, List.map_replicate,
+            Array.toList_replicate]
+          congr 1
+          omega
+        · rfl
+        · simp only [ofHash, HashT.new, hsh, hbits]
+      · refine ⟨?_, (by show 0 ≤ il; omega), ?_, ?_, ?_⟩
+        · simp only [GWF, List.length_replicate]; omega
+        · simpa using hmk
+        · simp only [hsh]; omega
+        · simp only [hsh, hbits]
+    | -- `table[:n]`, cleared
+      rename_i hcap
+      have hc' : 2 ^ hb.toNat ≤ g.table.arr.length := by
+        simp only [GSlice.cap, Int.ofNat_eq_natCast] at hcap
         omega
-      · rfl
-      · simp only [ofHash, HashT.new, hsh, hbits]
-    · refine ⟨?_, (by show 0 ≤ il; omega), ?_, ?_, ?_⟩
-      · simp only [GWF, List.length_replicate]; omega
-      · simpa using hmk
-      · simp only [hsh]; omega
-      · simp only [hsh, hbits]
+      rw [gslice_ok g.table 0 _ 0 (2 ^ hb.toNat) rfl rfl (Nat.zero_le _) hc']
+      simp only [bind_ok, List.drop_zero, Nat.sub_zero]
+      have hw' : GWF ({ arr := g.table.arr, len := 2 ^ hb.toNat } : GSlice hashEntry) := hc'
+      refine ⟨_, rfl, ?_, ?_⟩
+      · apply hashT_ext
+        · simp only [ofHash, HashT.new, gclear_data _ _ hw', List.map_replicate, ofEntry_zero',
+            Array.toList_replicate]
+        · rfl
+        · simp only [ofHash, HashT.new, hsh, hbits]
+      · refine ⟨gclear_wf _ _ hw', (by show 0 ≤ il; omega), ?_, ?_, ?_⟩
+        · simpa using hmk
+        · simp only [hsh]; omega
+        · simp only [hsh, hbits, gclear_len]
 
 end LZ.GenHash
 
